@@ -308,6 +308,94 @@ def in_child(fn, *args, timeout=600):
     return pl
 
 
+class PristineServer:
+    """A child forked *now* (while this process has not yet built anything) that computes fn(*args) on request, each
+    request in its own grandchild: every reference computation starts from the same pristine interpreter image, however
+    much process-wide state the requesting process (which runs the history under test) accumulates meanwhile."""
+
+    def __init__(self, timeout=600):
+        import pickle
+
+        self._pickle = pickle
+        self.timeout = timeout
+        self._req_r, self._req_w = os.pipe()
+        self._res_r, self._res_w = os.pipe()
+        sys.stdout.flush()
+        sys.stderr.flush()
+        self.pid = os.fork()
+        if self.pid == 0:
+            os.close(self._req_w)
+            os.close(self._res_r)
+            try:
+                self._serve()
+            finally:
+                os._exit(0)
+        os.close(self._req_r)
+        os.close(self._res_w)
+
+    @staticmethod
+    def _read_exact(fd, n):
+        chunks = []
+        while n > 0:
+            b = os.read(fd, min(n, 1 << 20))
+            if not b:
+                raise EOFError
+            chunks.append(b)
+            n -= len(b)
+        return b"".join(chunks)
+
+    def _send(self, fd, obj):
+        data = self._pickle.dumps(obj, protocol=self._pickle.HIGHEST_PROTOCOL)
+        os.write(fd, len(data).to_bytes(8, "little"))
+        view = memoryview(data)
+        while view:
+            k = os.write(fd, view[: 1 << 20])
+            view = view[k:]
+
+    def _recv(self, fd):
+        n = int.from_bytes(self._read_exact(fd, 8), "little")
+        return self._pickle.loads(self._read_exact(fd, n))
+
+    def _serve(self):
+        while True:
+            try:
+                req = self._recv(self._req_r)
+            except EOFError:
+                return
+            if req is None:
+                return
+            fn, args = req
+            try:
+                out = ("ok", in_child(fn, *args, timeout=self.timeout))
+            except HarnessError as e:
+                out = ("harness", str(e))
+            except BaseException as e:  # noqa
+                out = ("harness", "%s: %s" % (type(e).__name__, e))
+            self._send(self._res_w, out)
+
+    def call(self, fn, *args):
+        self._send(self._req_w, (fn, args))
+        st, pl = self._recv(self._res_r)
+        if st != "ok":
+            raise HarnessError("reference computation failed: %s" % pl)
+        return pl
+
+    def close(self):
+        try:
+            self._send(self._req_w, None)
+        except Exception:
+            pass
+        for fd in (self._req_w, self._res_r):
+            try:
+                os.close(fd)
+            except Exception:
+                pass
+        try:
+            os.waitpid(self.pid, 0)
+        except Exception:
+            pass
+
+
 def run_pool(fn, args, workers=None, task_timeout=600, wall_budget=None, on_result=None, recycle=False):
     """Run fn(arg) for every arg in forked workers, one task per worker at a time.
 
